@@ -116,6 +116,11 @@ CHECKS = {
           "Corpora of 3-40 documents without deletions (text field under 5 analyzers, keyword field, vocabulary sharing prefixes and a dense family for the scan-cap stratum) are committed under 2-4 segment layouts and asked completion requests (single-word prefixes of length 0-5, size 1..10, optional fuzzy options): every option must be an indexed term matching the analyzed prefix (or within the edit distance and sharing prefix_length characters), unique, sorted by (score desc, text asc), at most size; doc_freq must equal the number of indexed documents containing the term; below the scan cap the options must be the head of the covering-size list, which must hold exactly the eligible terms; answers must be identical across layouts, repeated calls and fresh readers.",
           "Trusted: the crate's analyzers for tokenisation (index terms and the analyzed prefix), harness Levenshtein. At or above the scan cap only soundness (term validity, ordering, doc_freq upper bound) is judged.",
           "DESIGN.md §5 C22"),
+  "C23": ("exploration",
+          "model-based property testing of the real HTTP service (in-process server, loopback TCP, raw HTTP/1.1 client) against a write-queue model",
+          "5-30 requests per case against searchlite-http on a fresh index: /add (NDJSON) and /bulk with 1-4 documents that are valid, not JSON, not an object, or violate the schema at a generated position, /delete with valid or invalid id lists, /commit, /refresh, /compact, /search. A 2xx write appends its operations to the model queue (and must report queued == number of items), a rejected write appends nothing, /commit applies the queue in order; after every successful /commit and at the end /search(match_all) must equal the model (ids and stored fields); valid writes and commits must never be rejected.",
+          "Trusted: harness/src/httpc.rs (server bootstrap, HTTP client), the queue model. Requests are sequential. Supervised child process.",
+          "DESIGN.md §5 C23"),
   "C26": ("exploration",
           "property-based testing of the C ABI with guarded buffers (canary regions, every capacity in the thorough tier) in a supervised child process",
           "Indexes driven only through the C API (searchlite_index_open / add_json / commit / search): queries as plain text, JSON nodes and raw bytes incl. invalid UTF-8, limits 0..6, garbage and real cursors, valid/invalid aggregation JSON. The output buffer sits between two 64-byte canaries in an allocation pre-filled with 0xAA; for 40 sampled capacities plus the boundary ones (quick) or every capacity from 0 to full length + 16 (half of the thorough cases) the call must leave canaries and every byte at index >= buf_cap untouched, return ret <= buf_cap-1 with a NUL at ret and none before, write a prefix of the full response, leave a zero-capacity buffer alone; null handle/query/buffer return 0 and write nothing; failing searches return 0 and write nothing; null arguments to add/commit return negative status. A crash of the process (null dereference, abort) is caught by the supervisor and traced to the call in flight.",
